@@ -12,6 +12,24 @@ CLAIMED = {
  "C09": ("path-sensitive guarded-effect analysis over SSA (custom checker, go/ssa)",
          "Every public bar operation's transition rule is decided on all paths of the closure it sends to the bar goroutine (clamp-and-trigger after every write of current, SetTotal/EnableTriggerComplete/Abort/SetRefill guards and effects, completion predicate, constructor flag, getters, shorthands). Sound for the per-operation rules on all inputs; sequences follow by induction, not by replay.",
          NOTE + "Assumes one operation at a time per bar (C10). Equality with a reference model over sequences is argued per operation, not executed.", "DESIGN.md §4 C09"),
+ "C11": ("inductive-invariant argument by path-sensitive guarded-effect analysis over SSA",
+         "The invariant 'not (aborted and completed)' is shown inductive over every operation closure and the bar loop's exit, and the terminal flags are shown to be written only where they cannot be reset (predicate implies !aborted, Abort guarded, exit derives aborted from !completed before publishing, trigger flag never reset, clamp discipline after completion, post-exit getters read the published state). Sound for all operation histories with non-decreasing updates.",
+         NOTE + "Assumes C10 (one operation at a time) and non-decreasing updates after the terminal state, as in the statement.", "DESIGN.md §4 C11"),
+ "C02": ("communication-shape analysis (channel-class table from SSA) + path enumeration + abstract reachability (nil-ness of disabled inboxes)",
+         "Every blocking operation of the module is classified under a schema that cannot block forever (liveness skeleton), every inbox offer has the actor's liveness alternative, published state is read only after the ready channel, late calls return the documented values without effect, every send on the heap-manager channel is made by the container loop and none is reachable after the end request, every close executes at most once per channel instance, payload assertions agree with constructors, modulo-indexed lists are non-empty by construction and only the documented panics exist. Decides these necessary conditions on all paths and all positions of the done event.",
+         NOTE + "Does not decide panics inside user callbacks, resource exhaustion, or global deadlock freedom beyond the pairwise schemas.", "DESIGN.md §4 C02"),
+ "C16": ("communication-shape analysis: classification of every blocking operation and go site",
+         "Each of the module's go targets is inventoried and every blocking channel/WaitGroup operation is shown to fall under a terminating schema (escape on a close-only signal whose arm leaves the loop, reply leg, range over a producer-closed channel, buffered frame channel, who-closes-done justification of the listeners' forward sends, single detached notifier send), plus close-once and request-FIFO rules. A goroutine that outlives its container needs one of these to be broken.",
+         NOTE + "Assumes the user reads the shutdown notifier channel and user callbacks return.", "DESIGN.md §4 C16"),
+ "C05": ("path-sensitive per-bar outcome analysis of the flush loop and the heap loop's iteration (guarded effects, counting)",
+         "For every path of flush's collection loop the iterated bar is retained at most once and exactly once unless a drop reason holds, with a complete decision table; the heap loop delivers or re-pushes every popped bar and offers each element once; one renderer and one frame per bar; pushes and the next cycle's requests share one FIFO from one goroutine; the notifier gets the heap's own list after the last request.",
+         NOTE + "Counts outcomes per bar and cycle; frame contents are not examined.", "DESIGN.md §4 C05"),
+ "C17": ("guarded-effect analysis of the Add closure and flush's successor swap",
+         "A created bar is pushed or parked, exactly one; at the predecessor's cancelling frame the successor is swapped in (entry deleted, current priority inherited, pushed once with sync=true, predecessor dropped). Two necessary conditions are violated by the pinned tree and recorded as open known findings (overwrite of an existing successor; parking after the predecessor was flushed).",
+         NOTE + "Orders of create/finish/flush events are not replayed; the rules are the structural conditions without which some order loses a bar.", "DESIGN.md §4 C17"),
+ "C18": ("guarded-effect analysis of flush's pop arms and row accounting",
+         "Pop priority assigned then advanced, bar retained once at the cancelling frame, rows accounted and bar dropped at the next terminal frame, no-pop bars keep the default arm, Flush receives rows minus popped rows, initial pop priority below all defaults.",
+         NOTE + "The persisted screen region is not interpreted.", "DESIGN.md §4 C18"),
 }
 PENDING_REASON = "check not built yet (DESIGN.md §7: a property is claimed only once its rules are built and silent on the repaired tree)"
 NA = {}
